@@ -44,3 +44,24 @@ def cLt (t u : Time α) : Bool := decide (t.q < u.q) || (t.q == u.q && decide (t
 
 end Time
 end JF
+
+/-! ## `Time` objects as values (register sessions)
+
+The implementation's `Time` instances are mutable Python objects (`Time.update` overwrites the two fields in place, it is how
+time stamps of active units are refreshed). The property speaks about *times*, i.e. values: an object that obtained its fields
+through `update` is the time `(quotient, remainder)` like any other, a result of `+`/`from_float` is a new time that shares
+nothing with its operands, and the module-level `inf` is a constant. `Regs` is that reading: a finite register file of values. -/
+namespace JF.Time
+variable {α : Type}
+
+abbrev Regs (α : Type) := List (Time α)
+
+def Regs.get (z : Time α) (s : Regs α) (i : Nat) : Time α := s.getD i z
+
+/-- `regs[i] = t` (a new binding), out-of-range registers do not exist -/
+def Regs.put (s : Regs α) (i : Nat) (t : Time α) : Regs α := s.set i t
+
+/-- `regs[i].update(regs[j])`: copies the two fields -/
+def Regs.update (z : Time α) (s : Regs α) (i j : Nat) : Regs α := s.put i (s.get z j)
+
+end JF.Time
